@@ -48,6 +48,8 @@ def cases(tier):
     for n in (2, 3):
         yield ("cross", n)
     yield ("greedy",)
+    for n in (2, 3):
+        yield ("replace", n)
     # (kind, n, lo, hi, naming, mode)
     namings = (0,) if tier == "quick" else (0, 1)
     for n in (1, 2, 3, 4):
@@ -551,6 +553,88 @@ def _run_cross(case):
     return {"evals": max(evals, 1), "nontrivial": evals, "judged": evals, "viols": viols[:20], "outcomes": outcomes, "sample": sample, "states": 0, "transitions": 0}
 
 
+def _run_replace(case):
+    """the documented way of editing a model: `del program.commands[name]` and `add_command` under the same name again.  Every DAG n<=3 x direct /
+    list references x both orders of adding the commands x every command replaced x {before the first run, after a run}: after the edit the
+    program is the NEW set of commands: each executes exactly once in the next run, the removed one never again, and consumers are fed by the new one"""
+    from mpilot.program import Program
+    from ..vlib import graph as VL
+
+    _, n = case
+    names = G.NAMINGS[0]
+    viols, outcomes = [], {}
+    evals = 0
+    sample = None
+    for es in G.dags(n):
+        for kind in "dl":
+            edges = tuple((c, p, kind) for c, p in es)
+            for order in (list(range(n)), list(range(n - 1, -1, -1))):
+                for r_ in range(n):
+                    for run_first in (False, True):
+                        VL.reset()
+                        p = Program(libraries=LIB)
+                        tag = {"n": n, "edges": edges, "added_in_order": [names[i] for i in order], "replaced": names[r_], "run_before_the_edit": run_first}
+                        sample = tag
+                        evals += 1
+                        try:
+                            for i in order:
+                                p.add_command(VL.Node, names[i], dict(G.slots_of(n, edges, i, names)))
+                            if run_first:
+                                p.run()
+                            old = p.commands[names[r_]]
+                            del p.commands[names[r_]]
+                            p.add_command(VL.Node, names[r_], dict(G.slots_of(n, edges, r_, names)))
+                            VL.reset()
+                            p.run()
+                        except Exception as exc:
+                            viols.append(V("C01:replace:raised:%s" % type(exc).__name__, "replacing %s and running raised %r" % (names[r_], exc), tag=tag))
+                            continue
+                        new = p.commands[names[r_]]
+                        ok = True
+                        cnt = VL.LOG.count(("enter", names[r_]))
+                        want_cnt = 1
+                        if cnt != want_cnt:
+                            viols.append(V("C01:replace:executed-%d-times" % cnt, "after replacing %s the next run executed a command of that name %d times (the removed one %s)" % (
+                                names[r_], cnt, "ran again" if old.is_finished and not run_first else "?"), tag=tag))
+                            ok = False
+                        if not new.is_finished:
+                            viols.append(V("C01:replace:new-command-not-executed", "the command added in place of %s was not executed" % names[r_], tag=tag))
+                            ok = False
+                        elif not run_first:
+                            bad = [(c, pr) for c, pr, fin, rid in VL.FED if pr == names[r_] and rid != id(new._result)]
+                            if bad:
+                                viols.append(V("C01:replace:fed-by-removed-command", "%s was fed by the REMOVED command %s" % (bad[0][0], names[r_]), tag=tag))
+                                ok = False
+                        k = "replace:%s" % ("ok" if ok else "bad")
+                        outcomes[k] = outcomes.get(k, 0) + 1
+        # a LIST argument edited in place (`command.get_argument_value("L").append(name)`): programs loaded from a command file and built through the
+        # API, every consumer with a list x every other command that may be appended without closing a loop, multi-line and one-line lists
+        edges = tuple((c, p, "l") for c, p in es)
+        for mode in ("src", "api"):
+            for c_ in sorted({c for c, _ in es}):
+                for x_ in range(n):
+                    if x_ == c_ or (c_, x_) in es or G.has_cycle(n, list(edges) + [(c_, x_, "l")]):
+                        continue
+                    tag = {"n": n, "edges": edges, "built": mode, "appended": [names[c_], names[x_]]}
+                    sample = tag
+                    evals += 1
+                    try:
+                        p = _program(n, edges, names, mode)
+                        p.commands[names[c_]].get_argument_value("L").append(names[x_])
+                        VL.reset()
+                        p.run()
+                    except Exception as exc:
+                        viols.append(V("C01:edit-list:raised:%s" % type(exc).__name__, "appending %s to the list of %s and running raised %r" % (names[x_], names[c_], exc), tag=tag))
+                        continue
+                    fed = sorted(pr for c, pr, fin, rid in VL.FED if c == names[c_] and fin)
+                    want = sorted([names[p_] for c, p_ in es if c == c_] + [names[x_]])
+                    if fed != want:
+                        viols.append(V("C01:edit-list:not-fed-by-appended-reference", "%s lists %r after the edit but was fed %r" % (names[c_], want, fed), tag=tag))
+                    k = "edit-list:%s" % ("ok" if fed == want else "bad")
+                    outcomes[k] = outcomes.get(k, 0) + 1
+    return {"evals": max(evals, 1), "nontrivial": evals, "judged": evals, "viols": viols[:20], "outcomes": outcomes, "sample": sample, "states": 0, "transitions": 0}
+
+
 def _run_greedy(case):
     """ONE Python list (of result names, of command objects, or mixed; 1-3 sources) given as the list argument of TWO consumers, one of which uses
     up the list it receives while executing; every order of adding and of demanding the consumers, run once and twice: each consumer is fed the
@@ -726,6 +810,8 @@ def run(case):
         return _run_cross(case)
     if case[0] == "greedy":
         return _run_greedy(case)
+    if case[0] == "replace":
+        return _run_replace(case)
     if case[0] == "graphs":
         return _run_graphs(case)
     return _run_hist(case)
